@@ -34,8 +34,8 @@ CHECKS.update({
             "The evidence lists the distinct lock-acquisition orders actually observed."),
     "C06": ("exploration", "3.C06",
             "history enumeration over the export entry points with directory-snapshot oracle against the canonical tree of the same set",
-            "Tens of thousands of call sequences (all ordered pairs of (type, entry point) + random longer ones) over six spellings of the export "
-            "directory and three initial directory states are executed against the real exporter; the final tree must equal the canonical tree "
+            "Tens of thousands of call sequences (all ordered pairs of (type, entry point) + random longer ones) over seven configurations of the export "
+            "directory (one of them through a symbolic link), four initial directory states and, now and then, a removal of the whole output tree in mid-history are executed against the real exporter; the final tree must equal the canonical tree "
             "of the exported declaration set, no declaration may disappear between steps, stale bytes and unrelated files are checked."),
     "C08": ("exploration", "3.C08",
             "exhaustive path-pair enumeration through the real import_path with an independent lexical resolver (cross-checked with posixpath "
@@ -47,7 +47,8 @@ CHECKS.update({
             "to a written file that declares the imported names."),
     "C17": ("fault_enumeration", "3.C17",
             "fault-injection histories (obstacle before one step, removed before retry) with snapshot/registry oracle against the fault-free run",
-            "Histories of real export calls with one obstacle of each kind injected before each position; the monitor checks the call returns "
+            "Histories of real export calls with one obstacle of each kind (target or dependency target is a directory, an ancestor is a file, path above "
+            "the root - also after moving the working directory -, non-exportable roots, a recorded file replaced by a directory or emptied) injected before each position; the monitor checks the call returns "
             "Err rather than panicking, the registry lock is not poisoned, other files are untouched, and after removing the obstacle the retry "
             "leads to exactly the tree of the fault-free history."),
 })
